@@ -81,11 +81,19 @@ impl UiSupportCode {
                             diagnostics,
                         ))
                     }
-                    PropertyCodeKind::ObjectMap(..) => {
-                        diagnostics.push(Diagnostic::error(
-                            property_code.node().byte_range(),
-                            "nested dynamic binding is not supported",
-                        ));
+                    PropertyCodeKind::ObjectMap(_, map) => {
+                        // report the offending bindings, not the node which happened to
+                        // create the map (i.e. the first binding of the group)
+                        for (_, p) in map
+                            .iter()
+                            .sorted_by_key(|&(k, _)| k)
+                            .filter(|(_, p)| !p.is_evaluated_constant())
+                        {
+                            diagnostics.push(Diagnostic::error(
+                                p.binding_node().byte_range(),
+                                "nested dynamic binding is not supported",
+                            ));
+                        }
                         return None;
                     }
                 };
